@@ -296,6 +296,20 @@ def run_unit(name, tier="quick", use_cache=True, canary=True, repo=None):
                 if cn not in lst:
                     lst.append(cn)
                     changed = True
+            elif re.match(r"cannot find value `[a-z_][A-Za-z0-9_]*` in this scope", msg) and fnn and not rec.get("clause"):
+                # a name used in a closure body that no longer exists: the closure was replaced by another one and the spliced
+                # contract header (with its parameter names) belongs to the old one -> drop that closure contract
+                ln = here[0]["ls"] - 1
+                piece = None
+                while ln >= 0 and ln < len(linemap) and linemap[ln].get("fn") == fnn:
+                    mc = re.match(r"closure(.+?)\.header", linemap[ln].get("clause") or "")
+                    if mc:
+                        piece = "closure %s" % mc.group(1)
+                        break
+                    ln -= 1
+                if piece and (fnn, piece) not in skip_pieces:
+                    skip_pieces.add((fnn, piece))
+                    changed = True
             elif d.get("code") and str(d["code"]).startswith("E0") and rec.get("clause") and fnn:
                 cl = rec["clause"]
                 piece = None
